@@ -27,6 +27,7 @@ type Solver struct {
 	Kind    string // z3 | z3-new | cvc5
 	cmd     *exec.Cmd
 	in      io.WriteCloser
+	w       *bufio.Writer
 	out     *bufio.Reader
 	defined []map[*Term]bool // per push level
 	declUF  []map[string]bool
@@ -34,6 +35,7 @@ type Solver struct {
 	Time    time.Duration
 	Unknown int
 	Errors  int
+	broken  bool
 	Log     io.Writer
 	timeout int // ms
 	buf     strings.Builder
@@ -66,7 +68,7 @@ func NewSolver(kind string, timeoutMs int) (*Solver, error) {
 	if err := cmd.Start(); err != nil {
 		return nil, err
 	}
-	s := &Solver{Kind: kind, cmd: cmd, in: in, out: bufio.NewReaderSize(out, 1<<16), timeout: timeoutMs}
+	s := &Solver{Kind: kind, cmd: cmd, in: in, w: bufio.NewWriterSize(in, 1<<16), out: bufio.NewReaderSize(out, 1<<16), timeout: timeoutMs}
 	s.defined = []map[*Term]bool{{}}
 	s.declUF = []map[string]bool{{}}
 	if strings.HasPrefix(kind, "z3") {
@@ -90,6 +92,7 @@ func (s *Solver) SetTimeout(ms int) {
 
 func (s *Solver) Close() {
 	if s.cmd != nil {
+		s.w.Flush()
 		s.in.Close()
 		s.cmd.Process.Kill()
 		s.cmd.Wait()
@@ -101,8 +104,8 @@ func (s *Solver) send(line string) {
 	if s.Log != nil {
 		fmt.Fprintln(s.Log, line)
 	}
-	io.WriteString(s.in, line)
-	io.WriteString(s.in, "\n")
+	s.w.WriteString(line)
+	s.w.WriteByte('\n')
 }
 
 func (s *Solver) Push() {
@@ -246,12 +249,14 @@ func (s *Solver) readLine() (string, error) {
 func (s *Solver) Check() Result {
 	t0 := time.Now()
 	s.send("(check-sat)")
+	s.w.Flush()
 	s.Queries++
 	res := Unknown
 	for {
 		line, err := s.readLine()
 		if err != nil {
 			s.Errors++
+			s.broken = true
 			res = Unknown
 			break
 		}
@@ -340,6 +345,7 @@ func (s *Solver) GetValues(st *Store, ts []*Term) ([]uint64, error) {
 			refs[k] = s.ref(st, t)
 		}
 		s.send("(get-value (" + strings.Join(refs, " ") + "))")
+		s.w.Flush()
 		sx, err := s.readSexp()
 		if err != nil {
 			return nil, err
